@@ -1,5 +1,5 @@
 (* Wire glue for C15 (ops 15xx): universal value -> render model/spec functions. *)
-From Fzf Require Import Prelude Val RenderSpec RenderModel RenderDynModel.
+From Fzf Require Import Prelude Val RenderSpec RenderModel RenderDynModel RenderGhostSpec RenderGhostModel.
 Open Scope Z_scope.
 
 Definition as_layout (v : val) : layout :=
@@ -66,4 +66,8 @@ Definition dispatch_render (op : Z) (a : val) : option val :=
   else if op =? 1508 then   (* [cfg, hdr0, view0, [[hdr, upd]...]] -> as 1503, the header changing along the history *)
     let c0 := as_cfg (arg a 0) in let h0 := as_hdr (arg a 1) in
     Some (VL (d_run_d c0 h0 (start_d c0 h0 (as_view (arg a 2))) (map as_dupd (as_list (arg a 3)))))
+  else if op =? 1509 then   (* spec with a ghost text: [cfg, view ++ [ghost, cursor], rows] -> failing clauses (2, 4 judged for the ghost; 7) *)
+    Some (VL (map VI (check_faithful_g (as_cfg (arg a 0)) (as_str (arg (arg a 1) 7)) (as_view (arg a 1)) (as_rows (arg a 2)))))
+  else if op =? 1510 then   (* [cfg, view ++ [ghost, cursor]] -> the full render with the ghost text, the query split at the cursor *)
+    Some (vrows (render_g (as_cfg (arg a 0)) (as_str (arg (arg a 1) 7)) (as_nat (arg (arg a 1) 8)) (as_view (arg a 1))))
   else None.
